@@ -8,7 +8,7 @@
      bond/angle   the bond lengths / angles of the topology's bonded interactions, nearest centre
      3-body       the centre angles of all triples (i;j,k) with both centre distances below cut
 
-   Lattice.  Positions and (orthorhombic) box edges are integers in u = 1/8 nm.  Bin layouts are
+   Lattice.  Positions and box vectors (orthorhombic, or triclinic in GROMACS form) are integers in u = 1/8 nm.  Bin layouts are
    integers in q = u/4 = 1/32 nm (1/32 rad for angles): mq = centre of bin 0, sq = bin width,
    n = number of bins.  Twice a bin edge, E2(k) = 2 mq + (2k-1) sq, is an integer, and a distance
    d = sqrt(d2) u = 4 sqrt(d2) q lies at/above the edge e iff e <= 0 or (2e)^2 <= 64 d2 - so the
@@ -49,14 +49,36 @@ SeqSet(s) == {s[i] : i \in 1..Len(s)}
 \* ExclusionList::CreateExclusions: two beads are excluded iff they share a bonded interaction
 Excluded(ias, i, j) == \E ia \in ias : i \in SeqSet(ia.ids) /\ j \in SeqSet(ia.ids)
 
-\* ---- brute-force minimum image, orthorhombic box L = <<Lx, Ly, Lz>> ----------------------
-\* all images r + (k1 Lx, k2 Ly, k3 Lz) with |k_c| <= floor(|r_c| / L_c) + 1: the shortest image of a
-\* component lies within one box length of the origin, so it is among them
+\* ---- brute-force minimum image -----------------------------------------------------------------
+\* A box is <<Lx, Ly, Lz>> (orthorhombic) or <<ax, by, cz, bx, cx, cy>> (triclinic, GROMACS form:
+\* a = (ax,0,0), b = (bx,by,0), c = (cx,cy,cz); written as the 9-value box line of a .gro file).
+\* The volume is box[1] * box[2] * box[3] in both cases (|det| of a triangular matrix).
+IsTric(box) == Len(box) = 6
+BoxA(box) == <<box[1], 0, 0>>
+BoxB(box) == IF IsTric(box) THEN <<box[4], box[2], 0>> ELSE <<0, box[2], 0>>
+BoxC(box) == IF IsTric(box) THEN <<box[5], box[6], box[3]>> ELSE <<0, 0, box[3]>>
+\* Orthorhombic: all images r + (k1 Lx, k2 Ly, k3 Lz) with |k_c| <= floor(|r_c| / L_c) + 1 (the shortest
+\* image of a component lies within one box length of the origin).
+\* Triclinic: the image obtained by reducing z, then y, then x has |v_c| <= L_c/2, so the shortest image
+\* is no longer than Rb = sqrt(ax^2+by^2+cz^2)/2 (rounded up); every image v with |v| <= Rb has
+\* |k3| <= (|r3|+Rb)/cz, |k2| <= (|r2|+Rb+|k3 cy|)/by, |k1| <= (|r1|+Rb+|k2 bx|+|k3 cx|)/ax: the cube
+\* below contains all of them, hence the true minimum over ALL periodic images.
 ImgK(r, L, c) == LET m == Abs(r[c]) \div L[c] + 1 IN (-m)..m
+TricK(r, box) ==
+  LET Rb == Isqrt(box[1] * box[1] + box[2] * box[2] + box[3] * box[3]) \div 2 + 1
+      m3 == (Abs(r[3]) + Rb) \div box[3] + 1
+      m2 == (Abs(r[2]) + Rb + m3 * Abs(box[6])) \div box[2] + 1
+      m1 == (Abs(r[1]) + Rb + m2 * Abs(box[4]) + m3 * Abs(box[5])) \div box[1] + 1
+  IN ((-m1)..m1) \X ((-m2)..m2) \X ((-m3)..m3)
 Images(r, L) ==
-  {<<r[1] + k[1] * L[1], r[2] + k[2] * L[2], r[3] + k[3] * L[3]>> : k \in ImgK(r, L, 1) \X ImgK(r, L, 2) \X ImgK(r, L, 3)}
+  IF IsTric(L)
+  THEN {Comb3(r, k, BoxA(L), BoxB(L), BoxC(L)) : k \in TricK(r, L)}
+  ELSE {<<r[1] + k[1] * L[1], r[2] + k[2] * L[2], r[3] + k[3] * L[3]>> : k \in ImgK(r, L, 1) \X ImgK(r, L, 2) \X ImgK(r, L, 3)}
 MinD2(r, L) == MinOfSet({Norm2(v) : v \in Images(r, L)})
 MinImages(r, L) == LET d == MinD2(r, L) IN {v \in Images(r, L) : Norm2(v) = d}
+ASSUME /\ MinD2(<<70, 0, 0>>, <<160, 32, 32, 80, 0, 0>>) = 100 + 1024     \* minus b: (-10,-32,0)
+       /\ MinD2(<<81, 31, 0>>, <<160, 32, 32, 80, 0, 0>>) = 2          \* minus b: (1,-1,0)
+       /\ MinD2(<<85, 20, 0>>, <<160, 32, 32, 80, 0, 0>>) = 25 + 144    \* minus b: (5,-12,0)
 
 \* per frame, for every pair i < j: squared minimum-image distance d2, one shortest image v of
 \* pos[j] - pos[i], and whether there are several shortest images (amb)
@@ -164,6 +186,51 @@ InterHist(top, ias, it, intra, W) ==
     [] it.kind = "bond" -> BondHist(ias, it, W)
     [] it.kind = "angle" -> AngleHist(ias, it, W)
 
+\* ---- vacuity guards (spec-internal): the scenario exercises the cases a wrong rule would hide in -----
+\* distance just below the range of a layout with min > 0:
+\*   W0 = [min - step/2, min)   belongs to bin 0 (nearest centre)
+\*   W1 = (min - 3 step/2, min - step/2)   is discarded (a truncating index rule would count it in bin 0)
+InW0(h, d2) == h.mq > 0 /\ AtOrAbove(d2, E2(h, 0)) /\ 16 * d2 < h.mq * h.mq
+InW1(h, d2) == /\ E2(h, 0) > 0 /\ ~AtOrAbove(d2, E2(h, 0))
+               /\ LET e == 2 * h.mq - 3 * h.sq IN e < 0 \/ e * e < 64 * d2
+\* some non-bonded interaction with min > 0 has a (non-excluded) pair in W0 and one in W1
+WindowExercised(sc, top, ias, W) ==
+  \E x \in 1..Len(sc.inter) :
+    LET it == sc.inter[x] IN
+    /\ it.kind = "nb" /\ it.mq > 0
+    /\ \E p \in NbPairs(top, ias, it, sc.intra) : InW0(it, DD(W, p[1], p[2])) /\ DistBin(it, DD(W, p[1], p[2])) = 0
+    /\ \E p \in NbPairs(top, ias, it, sc.intra) : InW1(it, DD(W, p[1], p[2])) /\ DistBin(it, DD(W, p[1], p[2])) = Discard
+
+\* Skewed box (triclinic with c along z): along b the box vector is longer than the box is wide
+\* (|b| > by), likewise along a.  A search grid must be sized by the WIDTH; the guard demands a counted
+\* pair that a grid sized by the LENGTH (N = floor(|b|/rc) >= 4 cells, more than floor(by/rc)) would put
+\* two or more cells apart, i.e. would never compare.  rc = max + step (q units: rcq), s = fractional
+\* coordinate along b = y/by, cell = floor(N s) mod N.
+NLen(len2, rcq) == CHOOSE n \in 0..64 : n * n * rcq * rcq <= 16 * len2 /\ (n + 1) * (n + 1) * rcq * rcq > 16 * len2
+CircDist(i, j, N) == LET d == MathMod(i - j, N) IN Min2(d, N - d)
+SkewExercised(sc, top, ias, fr, W) ==
+  IsTric(fr.box) /\ fr.box[5] = 0 /\ fr.box[6] = 0 /\
+  \E x \in 1..Len(sc.inter) :
+    LET it == sc.inter[x]
+        rcq == it.mq + it.n * it.sq
+        by == fr.box[2]
+        N == NLen(fr.box[4] * fr.box[4] + by * by, rcq)
+        cell(i) == MathMod(FloorDiv(N * fr.pos[i][2], by), N)
+    IN /\ it.kind = "nb"
+       /\ N >= 4 /\ N > NLen(by * by, rcq)
+       /\ \E p \in NbPairs(top, ias, it, sc.intra) :
+             DistBin(it, DD(W, p[1], p[2])) # Discard /\ CircDist(cell(p[1]), cell(p[2]), N) >= 2
+
+\* max (+ step for a triclinic box) of every non-bonded range is at most half the smallest box height
+\* (what BeginEvaluate demands of the first frame; asked of every frame because any may be first)
+HalfBoxOK(it, box) ==
+  IF IsTric(box)
+  THEN LET lim == it.mq + it.n * it.sq IN           \* max + step, q units;  lim/4 <= h/2
+       /\ box[5] = 0 /\ box[6] = 0 /\ 2 * Abs(box[4]) <= box[1]
+       /\ lim <= 2 * box[2] /\ lim <= 2 * box[3]
+       /\ lim * lim * (box[4] * box[4] + box[2] * box[2]) <= 4 * box[1] * box[1] * box[2] * box[2]
+  ELSE \A c \in 1..3 : it.mq + (it.n - 1) * it.sq <= 2 * box[c]
+
 \* ---- scenario admissibility (spec-internal: a generator that violates it is a spec bug) ------
 \* every angle used is on the pi/12 lattice, has a decided bin, comes from unambiguous images
 AnglesOK(sc, top, ias, W) ==
@@ -192,5 +259,7 @@ FrameData(sc, top, ias, f) ==
   LET W == PairMI(sc.frames[f])
   IN [h |-> [x \in 1..Len(sc.inter) |-> InterHist(top, ias, sc.inter[x], sc.intra, W)],
       ok |-> AnglesOK(sc, top, ias, W) /\ Distinct(top, W),
+      win |-> WindowExercised(sc, top, ias, W),
+      skew |-> SkewExercised(sc, top, ias, sc.frames[f], W),
       tie |-> HasEdgeTie(sc, top, W)]
 =============================================================================
